@@ -64,7 +64,8 @@ def post_selections(nv):
     def rule():
         p = lw.PostSelection(); p.add(0, (1, 2)); return p
     out = [("none", lambda: None), ("rule(0:(1,2))", rule),
-           ("predicate", lambda: (lambda s: s[nv - 1] == 0))]
+           ("predicate", lambda: (lambda s: s[nv - 1] == 0)),
+           ("predicate_count", lambda: (lambda s: s[0]))]        # answers with a number (truthy / falsy), not a bool
     if nv >= 3:
         def far():       # one rule over two modes that are not neighbours
             p = lw.PostSelection(); p.add((0, nv - 1), (0, 1)); return p
@@ -357,10 +358,20 @@ def check_quick_sampler(rc, pc, plabel, pfac, env, acc):
     for N in (1, 2):
         got, logs = law(lambda: result_key(q.sample_N_outputs(N, seed=2)), acc)
         vals, p, size = logs[0][-1]
-        handed = {}
-        for v, x in zip(vals, p):
-            handed[tuple(v.s)] = handed.get(tuple(v.s), 0.0) + x
-        compare_laws("quick_N_outputs_law", handed, pd, {**case, "N": N}, acc, tol=1e-12)
+        if all(hasattr(v, "s") for v in vals):         # the population handed to the generator, when it is the states
+            handed = {}
+            for v, x in zip(vals, p):
+                handed[tuple(v.s)] = handed.get(tuple(v.s), 0.0) + x
+            compare_laws("quick_N_outputs_law", handed, pd, {**case, "N": N}, acc, tol=1e-12)
+        # the law of the returned counts: N independent draws from the distribution (however they are generated)
+        want_law = {}
+        for seq in itertools.product(sorted(pd), repeat=N):
+            cnt = {}
+            for st in seq:
+                cnt[st] = cnt.get(st, 0) + 1
+            key = tuple(sorted(cnt.items()))
+            want_law[key] = want_law.get(key, 0.0) + float(np.prod([pd[st] for st in seq]))
+        compare_laws("quick_N_outputs_counts_law", got, want_law, {**case, "N": N}, acc, tol=1e-9)
         for key in got:
             if sum(cnt for _, cnt in key) != N:
                 acc.violation("N_outputs_not_exactly_N", {**case, "N": N}, {"result": key})
